@@ -1,5 +1,6 @@
 import Driver.Loop
 import PMV.Model.IndexWire
+import PMV.Lemmas.IndexSpec
 /- line-protocol handlers for the C09 view (indexing) -/
 namespace Drv.C09
 open PMV PMV.NpIndex PMV.Index PMV.IndexWire
@@ -34,6 +35,15 @@ def handle : List Sx → Sx
       | some n => Sx.ofNat n
       | none => .atom "TypeError"
     | none => err "shape"
+  | [.atom "sel", sh, ents] =>
+    -- spec suite: the Lean specification `sel` alone (compared with the Python reference)
+    match sh.nats?, parseEntries ents with
+    | some shape, some es =>
+      match sel shape es with
+      | some sp => .list [Sx.ofNats sp.shape, .list ((indices sp.shape).map fun o =>
+          if sp.flag o then Sx.atom "m" else Sx.ofNat (ravel shape (sp.src o)))]
+      | none => .atom "IndexError"
+    | _, _ => err "operand"
   | [.atom "np", sh, ents] =>
     -- kernel suite: the NumPy model alone
     match sh.nats?, (ents.toList?).bind (·.mapM parseNEntry) with
